@@ -1,32 +1,44 @@
 import P9Model.Driver.K1
 import P9Model.Driver.KVer
 import P9Model.Driver.KIO
+import P9Model.Driver.KQid
 /-!
 Line-protocol driver: reads `<mode> key=value …` lines on stdin, prints the model's
 prediction for each on stdout (one line per line). Core library only (compiled `lean_exe`).
+State (for the stateful models) is threaded through the lines of one run.
 -/
 open P9.Driver
 
-def step (line : String) : String :=
+structure DState where
+  q : QState := {}
+
+def step (s : DState) (line : String) : DState × String :=
   let toks := parseLine line
   match toks.head? with
-  | some ("k1", _) => k1 toks
-  | some ("k2", _) => k2 toks
-  | some ("kparse", _) => kparse toks
-  | some ("kvstr", _) => kvstr toks
-  | some ("ktv", _) => ktv toks
-  | some ("kchunk", _) => kchunk toks
-  | some ("kneg", _) => kneg toks
-  | some ("klfs", _) => klfs toks
-  | _ => "bad-op"
+  | some ("k1", _) => (s, k1 toks)
+  | some ("k2", _) => (s, k2 toks)
+  | some ("kparse", _) => (s, kparse toks)
+  | some ("kvstr", _) => (s, kvstr toks)
+  | some ("ktv", _) => (s, ktv toks)
+  | some ("kchunk", _) => (s, kchunk toks)
+  | some ("kneg", _) => (s, kneg toks)
+  | some ("klfs", _) => (s, klfs toks)
+  | some ("klikely", _) => (s, klikely toks)
+  | some ("kltq", _) => let (q, o) := kltq s.q toks; ({ s with q := q }, o)
+  | some ("kmap", _) => let (q, o) := kmap s.q toks; ({ s with q := q }, o)
+  | some ("kmode", _) => (s, kmode toks)
+  | some ("kfromos", _) => (s, kfromos toks)
+  | some ("kmapc", _) => (s, kmapc toks)
+  | _ => (s, "bad-op")
 
-partial def loop (h : IO.FS.Stream) (o : IO.FS.Stream) : IO Unit := do
+partial def loop (h : IO.FS.Stream) (o : IO.FS.Stream) (s : DState) : IO Unit := do
   let line ← h.getLine
   if line.isEmpty then return ()
-  o.putStrLn (step line)
-  loop h o
+  let (s', out) := step s line
+  o.putStrLn out
+  loop h o s'
 
 def main : IO Unit := do
   let i ← IO.getStdin
   let o ← IO.getStdout
-  loop i o
+  loop i o {}
